@@ -36,6 +36,44 @@ fn header(ver: u32, flag: u8) -> Vec<u8> {
     h
 }
 
+/// what the documented format says about a container file: header, then (for the compressed container: after
+/// bzip2 decompression of everything behind the header) an optional schema section followed by exactly the encoding
+fn container_bytes_ok(file: &[u8], ver: u32, mode: Mode, want: &[u8]) -> Result<(), String> {
+    use std::io::Read;
+    if !matches!(mode, Mode::Plain | Mode::NoSchema | Mode::Bz) {
+        return Ok(()); // the encrypted container has its own framing (C14)
+    }
+    let flag = if mode == Mode::Bz { 1 } else { 0 };
+    let h = header(ver, flag);
+    if file.len() < h.len() || file[..h.len()] != h[..] {
+        return Err(format!("header {:?}", &file[..file.len().min(16)]));
+    }
+    match mode {
+        Mode::Bz => {
+            let mut body = Vec::new();
+            if let Err(e) = bzip2::read::BzDecoder::new(&file[h.len()..]).read_to_end(&mut body) {
+                return Err(format!("body is not one bzip2 stream: {}", e));
+            }
+            if !body.ends_with(want) {
+                return Err(format!("decompressed body tail != spec bytes (tail {:?}, spec {:?})",
+                                   &body[body.len().saturating_sub(want.len().min(24))..], &want[..want.len().min(24)]));
+            }
+        }
+        Mode::Plain => {
+            if !file.ends_with(want) {
+                return Err("file tail != spec bytes".to_string());
+            }
+        }
+        Mode::NoSchema => {
+            if file[h.len()..] != want[..] {
+                return Err("file != header + spec bytes".to_string());
+            }
+        }
+        _ => {}
+    }
+    Ok(())
+}
+
 fn replay_one(e: &Entry, rec: &Value, modes_all: bool, cx: &mut Ctx) -> Value {
     let ver = rec["ver"].as_u64().unwrap() as u32;
     let mv: MV = serde_json::from_value(rec["v"].clone()).expect("model value");
@@ -133,6 +171,8 @@ fn replay_one(e: &Entry, rec: &Value, modes_all: bool, cx: &mut Ctx) -> Value {
                 let h = header(ver, 1);
                 if file.len() < h.len() || file[..h.len()] != h[..] {
                     cx.fail("c02.header.bz", format!("{:?}", &file[..file.len().min(16)]));
+                } else if let Err(why) = container_bytes_ok(&file, ver, mode, &want) {
+                    cx.fail("c02.payload.bz", why);
                 }
             }
             _ => {}
@@ -179,6 +219,9 @@ fn evo_one(reg: &HashMap<String, Entry>, rec: &Value, cx: &mut Ctx) {
     }
     if sink.data != want {
         cx.fail(&format!("{}.bytes", p), format!("real={:?} spec={:?}", sink.data, want));
+        if mode == "up" {
+            cx.fail("c02.bytes.versioned", format!("real={:?} spec={:?}", sink.data, want));
+        }
     }
     for (tag, data) in [("real", &sink.data), ("spec", &want)] {
         let mut src = TapR::new(data);
@@ -203,6 +246,10 @@ fn evo_one(reg: &HashMap<String, Entry>, rec: &Value, cx: &mut Ctx) {
             if !so.is_ok() {
                 cx.fail(&format!("c03.save.{}", tag), format!("{:?}", so));
                 continue;
+            }
+            // C02 for every data version the type declares: the container of program i written at version i
+            if let Err(why) = container_bytes_ok(&sink.data, i, mode, &want) {
+                cx.fail(&format!("c02.container.{}", tag), why);
             }
             let mut src = TapR::new(&sink.data);
             src.keep_log = false;
